@@ -349,6 +349,12 @@ def boundary_schedules(rng):
     v = make_message(rng, 1, 1, None, 'A')
     out.append(('verbatim-retransmission', [u[0], u[1], u[2], v[0], u2[0], u2[1], u2[2]]))
     out.append(('verbatim-retransmission-permuted', [u[2], u[0], u[1], v[0], u2[1], u2[0], u2[2], dict(v[0], msg=3)]))
+    # the same SINGLE sentence again, byte for byte (a vessel at anchor repeats its report): once behind a wrapper, once
+    # without, once behind another wrapper -- a sentence object remembered from the first time keeps the first wrapper
+    x = make_message(rng, 0, 1, None, 'A', bad_checksums=0)
+    y = make_message(rng, 4, 1, None, 'B', bad_checksums=0)
+    out.append(('verbatim-single-and-wrappers', [wrapper_line(rng), x[0], dict(x[0], msg=1), y[0], wrapper_line(rng),
+                                                 dict(x[0], msg=2), dict(y[0], msg=5), dict(x[0], msg=3)]))
     # tag-blocked multi-part with a wrapper
     t = make_message(rng, 0, 2, 8, 'B', tagged=1.0)
     out.append(('tagged', [wrapper_line(rng), t[1], t[0]]))
@@ -886,9 +892,12 @@ def run_case(ctx, seq, label, term=b'', tbq=False, frontends=None, cache=None, t
     frontends = frontends or FRONTENDS
     results = {}
     case = {'label': label, 'term': term.hex(), 'tbq': tbq, 'lines': [d['hex'] for d in seq]}
-    previous = _PREVIOUS.get('case')          # a failure caused by state that an EARLIER reader / queue left behind (class-level
-    if not _PREVIOUS.get('replaying'):        # or module-level state in the library) only reproduces after that earlier case
-        _PREVIOUS['case'] = {'seq': seq, 'term': term.hex(), 'tbq': tbq, 'label': label, 'frontends': list(frontends or FRONTENDS)}
+    # a failure caused by state that EARLIER readers / queues left behind (class-level or module-level state in the library)
+    # only reproduces after those earlier cases: the replay refers to all cases run before it in this process (shared list)
+    hist = _PREVIOUS.setdefault('cases', [])
+    previous = {'cases': hist, 'upto': len(hist)}
+    if not _PREVIOUS.get('replaying'):
+        hist.append({'seq': seq, 'term': term.hex(), 'tbq': tbq, 'label': label, 'frontends': list(frontends or FRONTENDS)})
     scoped = in_scope(seq) if scoped is None else scoped
     pairwise_only = label.startswith('pairwise-only')
     if pairwise_only:
@@ -1003,6 +1012,23 @@ def many_in_flight(rng, n):
     return seq
 
 
+def many_incomplete_then_wrapper(rng, n):
+    """n messages whose last fragment never arrives (n distinct slots stay occupied), then a wrapper, then a complete message in
+    a fresh slot and a single: the wrapper belongs to the first of them.  A bounded / reset fragment table that also forgets
+    the pending wrapper shows only with that many slots occupied."""
+    slots = [(sq, ch) for sq in [None] + list(range(10)) for ch in ['A', 'B', '1', '2', '']]
+    rng.shuffle(slots)
+    seq = []
+    for i, (sq, ch) in enumerate(slots[:n]):
+        m = make_message(rng, i, 2, sq, ch, bad_checksums=0)
+        seq.append(m[0])
+    sq, ch = slots[n]
+    new = make_message(rng, n, 2, sq, ch, bad_checksums=0)
+    seq += [wrapper_line(rng), new[0], new[1], make_message(rng, n + 1, 1, None, 'A')[0], wrapper_line(rng),
+            make_message(rng, n + 2, 1, None, 'B')[0]]
+    return seq
+
+
 def sequential_schedule(rng, k):
     """k complete messages one after the other (no interleaving, nothing incomplete), with slots reused -- the readers
     are at rest after every delivery, so iteration may be interrupted and resumed there."""
@@ -1053,6 +1079,8 @@ def generated_cases(ctx, n_random, n_out):
             cases.append(('boundary:' + label, seq, rng.choice([b'', b'\n', b'\r\n']), tbq))
     for n in ((21, 30) if ctx.quick else (21, 22, 30, 41, 55)):
         cases.append(('many-in-flight', many_in_flight(rng, n), rng.choice([b'', b'\n']), False))
+    for n in ((15, 16, 17, 32, 50) if ctx.quick else (7, 8, 9, 15, 16, 17, 31, 32, 33, 40, 50, 54)):
+        cases.append(('many-incomplete-then-wrapper', many_incomplete_then_wrapper(rng, n), rng.choice([b'', b'\n']), False))
     for _ in range(ctx.budget(12, 60)):
         cases.append(('sequential', sequential_schedule(rng, rng.choice([2, 3, 5, 8])), rng.choice([b'', b'\n', b'\r\n']),
                       rng.random() < 0.3))
@@ -1257,15 +1285,18 @@ def replay_case(ctx, data, want):
             same = [v for v in new if v['signature'].get('entry') == data['frontend']]
             return (same or new)[0]['what'] if new else None
         _PREVIOUS['replaying'] = True
-        prev = data.get('previous')
-        if prev:
-            # the case that preceded it in the recorded run first (same process, new reader / queue objects): a failure caused
-            # by state that leaks between objects needs it
+        prev = data.get('previous') or {}
+        r = None
+        for k, pc in enumerate(prev.get('cases', [])[:prev.get('upto', 0)]):
+            # the cases that preceded it in the recorded run first (same process, new reader / queue objects): a failure caused
+            # by state that leaks between objects needs them.  (If one of THEM already violates, that is the answer.)
             quiet = len(ctx.rep.violations)
-            run_case(ctx, prev['seq'], prev['label'], term=bytes.fromhex(prev['term']), tbq=prev['tbq'],
-                     frontends=prev.get('frontends'), tmpdir=tmpdir, want=want)
+            run_case(ctx, pc['seq'], pc['label'], term=bytes.fromhex(pc['term']), tbq=pc['tbq'],
+                     frontends=pc.get('frontends'), tmpdir=tmpdir, want=want)
+            if len(ctx.rep.violations) > quiet and r is None:
+                r = ctx.rep.violations[quiet]['what'] + f' (case {k} of the recorded run)'
             del ctx.rep.violations[quiet:]
-        return once()
+        return once() or r
     finally:
         shutil.rmtree(tmpdir, ignore_errors=True)
         if own:
